@@ -20,8 +20,9 @@ from vplib import c01known, commitabs, common, hist, histcheck, histeval
 def hook(run, st):
     msgs = []
     if (st.op["op"] in ("commit", "upgrade_object", "purge") and st.rc == "ok") or st.op["op"] == "commit":
-        # (a refused commit must leave a valid repository too: hostile object roots, refusals after partial work)
-        msgs = histeval.c01_oracle(run, st)
+        # (a refused commit must leave a valid repository too: hostile object roots, refusals after partial work;
+        #  `driver_dirty`: the driver itself has just put a leftover into the object, the tree oracle is skipped once)
+        msgs = [] if st.op.get("driver_dirty") and st.rc != "ok" else histeval.c01_oracle(run, st)
         beside = sorted(set(os.listdir(run.r.sc.base)) - {"root", "src", "stg"})
         if beside:
             msgs.append("entries created beside the storage root: %r" % (beside,))
@@ -44,5 +45,5 @@ def run(ctx):
     ctx.assumptions.append("file-system clauses: proved for the fault-free commit of the protocol model (C01_commit_yields_written_object, C01_reachable_tree_valid) under commit_pre + commit_pre_tree, which the correspondence evaluates on every real pre-state; storage root files, layout placement, purge and operations under faults are decided by the direct search on executed histories (and by C04/C05/C11/C12)")
     return histcheck.run_history_check(
         ctx, proof, hook2, n, length, final_commit=True, extra_evidence=fs,
-        scripted=c01known.scenarios() + hist.hostile_root_scenarios() + hist.upgrade_scenarios(),
+        scripted=c01known.scenarios() + c01known.leftover_version_scenarios() + hist.hostile_root_scenarios() + hist.upgrade_scenarios() + hist.backslash_scenarios(),
         rule="adaptive random histories over 3 object ids x rotating configurations (8 layout variants, spec 1.0/1.1, sha256/512, content dir, padding, external staging, fresh handle); distinct = distinct (operation, arguments, result class); NotFound steps are trivial")
